@@ -68,7 +68,12 @@ _MD = C('Mid', [P('a', 'int')], ['Root'])
 _LC = C('LeafC', [P('a', 'int'), P('b', 'str', ['str', 'q'])], ['Mid'])
 _LD = C('LeafD', [P('a', 'int'), P('c', 'int', ['int', 0])], ['Mid'])
 _OT = C('Other', [P('a', 'int'), P('d', 'int', ['int', 0])], ['Root'])
+# an unregistered class between two registered ones
+_UR = C('URoot', [P('a', 'int')], extra='default')
+_UM = C('UMid', [P('a', 'int')], ['URoot'], reg=False, extra='default')
+_UL = C('ULeaf', [P('a', 'int'), P('b', 'str', ['str', 'q'])], ['UMid'], extra='default')
 MODELS = {
+    'UI': {'classes': [_UR, _UM, _UL], 'doc_type': ['union', REF('URoot'), ['list', REF('URoot')]]},
     # string-like classes and enums where bool-looking scalars may turn up
     'SL': {'classes': [_US, _YS, _COL], 'doc_type': ['list', ['union', REF('US'), 'int']]},
     'SM': {'classes': [_US, _YS, _COL],
@@ -108,7 +113,7 @@ KEYS = {
     'L': ['x', 'a', 'b'], 'DM': ['k', 'j'], 'DU': ['k', 'j'], 'AB': ['a', 'b'],
     'SH': ['center', 'radius', 'width', 'x'], 'UN': ['a', 'b', 'c'],
     'WD': ['n', 'when', 'where', 'zz'], 'BF': ['k'],
-    'SL': ['k'], 'SM': ['k', 'true'], 'EU': ['c', 's', 'o', 't'], 'DP': ['a', 'b', 'c', 'd'], 'DK': ['m', 'y', 'k'], 'PR': ['a', '_id', 'b'], 'DI': ['a', 'b', 'c', 'd'], 'SV': ['line', 'col', 'w'],
+    'UI': ['a', 'b'], 'SL': ['k'], 'SM': ['k', 'true'], 'EU': ['c', 's', 'o', 't'], 'DP': ['a', 'b', 'c', 'd'], 'DK': ['m', 'y', 'k'], 'PR': ['a', '_id', 'b'], 'DI': ['a', 'b', 'c', 'd'], 'SV': ['line', 'col', 'w'],
 }
 SCALS = ['1', 'x', 'true', '1.5', '~', 'red', '"1"']
 SCALS_BY = {'SV': ['1', '7', 'x', '~'], 'WD': ['1', 'seven', '2001-01-01', '~', 'a/b', '1.5'],
